@@ -20,7 +20,9 @@ RULE = ("pairs of quantities built from a random unit AST (1-3 factors prefix*un
         "list/none/text, powers and products leaving the integer range, caller's array modified after construction; float "
         "exponents as np.float64/float32/float16/longdouble; augmented assignments; q.rebase(); histories: quantities created "
         "once and reused in 3-7 operations (every operator, unary minus, powers, a op a) with the results rebased/converted in "
-        "place in between, model and specification fed the creation-time state, operands re-read at the end; non-trivial = both operands carry "
+        "place in between (or given an uncertainty), numpy roots/powers np.sqrt/np.cbrt/np.power of a reused quantity, model and "
+        "specification fed the creation-time state, operands re-read at the end; plain numbers include Python ints and exactly "
+        "0 / 0.0 / -0.0 on either side of + and -; non-trivial = both operands carry "
         "units and differ in units, or a non-integer exponent, or a result whose dimensions vanish; distinct = canonical JSON")
 ASSUMPTIONS = [
     "units: all table units whose definition is not a temperature/logarithmic rule class (those belong to C05); the angle "
@@ -45,6 +47,10 @@ ASSUMPTIONS = [
     "a float32/float16 exponent is judged only when it is exactly n/d (d in 1,2,4): otherwise it denotes another number and "
     "value and unit exponent legitimately differ in the 8th digit; rebase() cases only with unit lists in which units "
     "sharing the names of their dimensions have the same dimension vector (see c08 ASSUMPTIONS)",
+    "a numpy scalar or ndarray on the LEFT of an operator is dispatched by numpy to __array_ufunc__, not to the reflected "
+    "operator (np.float64(0) + q raises on the unchanged code): plain numbers on the left are Python ints/floats; np.sqrt/"
+    "np.cbrt/np.power are judged as powers 1/2, 1/3, p with the uncertainty dropped (the library documents that errors are "
+    "propagated by + - * / ** only), roots only of positive values",
     "every unit list names a unit id once (they become Python dicts); Unit().x / text targets are used only when the unit "
     "parser (C03) reads them as the intended units",
 ]
@@ -534,6 +540,20 @@ def run_impl(case):
         else:
             raise ValueError(op)
         imp = mark_nonfinite(observe(res))
+        if op.split("_")[0] in ("add", "sub", "mul", "div", "neg", "pow") and not case.get("aug"):
+            # attach an uncertainty to the RESULT only; the operands must keep what they were given
+            try:
+                res.abse(0.3125) if rng_free_choice(case) else res.rele(12.5)
+                touched = []
+                for name, obj, st in (("left", lo, req["l"]), ("right", ro if "r" in req else None, req.get("r"))):
+                    if obj is not None and st is not None and "num" not in st and hasattr(obj, "magnitude"):
+                        now = state(obj)
+                        if not close(now["e"], st["e"]) or (now["e"] is None) != (st["e"] is None):
+                            touched.append([name, st["e"], now["e"]])
+                if touched:
+                    imp["operand_error_changed"] = touched
+            except Exception:
+                pass
     except (ZeroDivisionError, OverflowError, FloatingPointError):
         imp = "err" if op == "pow_pair" and case["p"][1] == 0 else "nonfinite"
     except Exception:
@@ -542,6 +562,11 @@ def run_impl(case):
         n, d = case["p"]
         req["p"] = [n, 1] if op == "pow_int" else ([n, d] if op in ("pow_pair", "pow_frac") else float_to_frac(n / d))
     return req, imp
+
+
+def rng_free_choice(case):
+    """deterministic choice between abse() and rele() for the result-touching step"""
+    return (len(json.dumps(case, default=str)) % 2) == 0
 
 
 def unit_attr(tu):
@@ -668,6 +693,11 @@ def _gen_case(rng):
                   for s, pr in [rng.choice(nodim)]]
         x = gen_value(rng, nonzero=True, arrays=rng.random() < 0.5)
         v = gen_value(rng, nonzero=True)
+        k0 = rng.random()
+        if op in ("add", "sub") and k0 < 0.3:
+            x = rng.choice([0, 0.0, -0.0, 0])        # exactly zero (the start value of sum()), int and float
+        elif k0 < 0.45 and not isinstance(x, list):
+            x = rng.choice([3, -2, 1, 7])             # Python ints
         if isinstance(x, list) and isinstance(v, list) and len(x) != len(v):
             x = 3.0
         if rng.random() < 0.5:
@@ -867,6 +897,13 @@ CORPUS = [
     {"op": "sub", "lv": 3.0, "lu": None, "rv": 2.0, "ru": [], "plain": True},
     {"op": "add", "lv": 3.0, "lu": None, "rv": 2.0, "ru": U(("", "%", 1, 1)), "plain": True},
     {"op": "sub", "lv": 2.0, "lu": U(("", "ppth", 1, 1)), "rv": 3.0, "ru": None, "plain": True},
+    # exactly zero on the left of + and - : a plain number like any other
+    {"op": "add", "lv": 0, "lu": None, "rv": 2.0, "ru": U(("", "m", 1, 1)), "plain": True},
+    {"op": "add", "lv": 0.0, "lu": None, "rv": [1.0, 2.0], "ru": U(("k", "m", 1, 1), ("", "s", -1, 1)), "plain": True},
+    {"op": "add", "lv": 0, "lu": None, "rv": 50.0, "ru": U(("", "%", 1, 1)), "plain": True},
+    {"op": "sub", "lv": -0.0, "lu": None, "rv": 7.0, "ru": U(("", "ppth", 1, 1)), "plain": True},
+    {"op": "add", "lv": 0, "lu": None, "rv": 4.0, "ru": [], "plain": True, "re": 0.1},
+    {"op": "add", "lv": 3.0, "lu": U(("", "%", 1, 1)), "rv": 0, "ru": None, "plain": True},
     {"op": "neg", "lv": [1.0, -2.0], "lu": U(("", "m", 1, 1)), "le": 0.1},
     # the same object on both sides
     {"op": "mul", "lv": 12.0, "lu": U(("c", "m", 1, 1)), "le": 0.2, "same": True, "rv": 12.0, "ru": U(("c", "m", 1, 1)), "re": 0.2},
@@ -1016,6 +1053,8 @@ def describe(case):
         s += " , " + one(case["rv"], case.get("ru"), case.get("re"), case.get("rdtype"), case.get("rform"))
     if "p" in case:
         s += " ** %s/%s as %s" % (case["p"][0], case["p"][1], case["op"][4:])
+    if case.get("numpy"):
+        s += " [as np.%s]" % {"sqrt": "sqrt(q)", "cbrt": "cbrt(q)", "nppow": "power(q, p)"}[case["numpy"]]
     if case.get("aug"):
         s += " [augmented assignment]"
     if case["op"] == "rebase":
@@ -1081,6 +1120,8 @@ def gen_steps(rng, n, quantity):
     steps = []
     for _ in range(rng.randint(3, 6)):
         op = rng.choice(["add", "sub", "sub", "sub", "mul", "div", "neg", "pow", "add", "mul"])
+        if quantity and rng.random() < 0.2:
+            op = rng.choice(["sqrt", "cbrt", "nppow"])       # numpy roots / powers of a quantity
         i, j = rng.randrange(n), rng.randrange(n)
         num = None
         if op in ("add", "sub", "mul", "div") and rng.random() < 0.15 and (not quantity or op in ("mul", "div")):
@@ -1095,6 +1136,10 @@ def step_text(op, i, j, num, p):
         return "-x%d" % i
     if op == "pow":
         return "x%d**%d" % (i, p)
+    if op in ("sqrt", "cbrt"):
+        return "np.%s(x%d)" % (op, i)
+    if op == "nppow":
+        return "np.power(x%d, %s)" % (i, p)
     return "x%d %s %s" % (i, sym[op], ("x%d" % j) if num is None else repr(num))
 
 
@@ -1124,6 +1169,28 @@ def qty_history(ctx, count, judge_fn, presets, signature):
         pool = [[v, e, text_of(u)] for (v, e), u in zip(vals, us)]
         done = []
         for op, i, j, num, p in steps:
+            if op in ("sqrt", "cbrt", "nppow"):
+                # np.sqrt(q) = Quantity(np.sqrt(value), baseunits/2), np.cbrt: /3, np.power(q,x): baseunits*x — powers with
+                # the uncertainty dropped (documented: errors are propagated by + - * / ** only)
+                import numpy as np
+                vv = vals[i][0] if isinstance(vals[i][0], list) else [vals[i][0]]
+                if op != "nppow" and min(vv) <= 0:
+                    op = "nppow"                                  # real roots of non-positive numbers are not generated
+                pq = {"sqrt": [1, 2], "cbrt": [1, 3], "nppow": [p, 1]}[op]
+                c = {"op": "pow_pair" if op != "nppow" else "pow_int", "lv": vals[i][0], "lu": us[i], "le": None, "p": pq,
+                     "numpy": op, "history": list(done), "pool": pool}
+                req = {"k": "qty", "op": "pow", "l": dict(snaps[i], e=None), "env": env, "p": pq}
+                l = objs[i]
+                try:
+                    res = np.sqrt(l) if op == "sqrt" else (np.cbrt(l) if op == "cbrt" else np.power(l, p))
+                    imp = mark_nonfinite(observe(res))
+                except (ZeroDivisionError, OverflowError, FloatingPointError):
+                    imp = "nonfinite"
+                except Exception:
+                    imp = "err"
+                done.append(step_text(op, i, j, num, p))
+                pending.append((c, req, imp))
+                continue
             c = {"op": op if op != "pow" else "pow_int", "lv": vals[i][0], "lu": us[i], "le": vals[i][1],
                  "history": list(done), "pool": pool}
             req = {"k": "qty", "op": op, "l": snaps[i], "env": env}
@@ -1147,10 +1214,12 @@ def qty_history(ctx, count, judge_fn, presets, signature):
                 # what a user does with a result: merge its units / convert it in place (must not reach the operands)
                 k = ctx.rng.random() if not preset else 0.0
                 try:
-                    if k < 0.5:
+                    if k < 0.45:
                         res.rebase()
-                    elif k < 0.7 and res.units():
+                    elif k < 0.6 and res.units():
                         res.to(res.units())
+                    elif k < 0.8:
+                        res.abse(0.3125)        # an uncertainty attached to the result only
                 except Exception:
                     pass
             except (ZeroDivisionError, OverflowError, FloatingPointError):
@@ -1177,6 +1246,10 @@ def qty_history(ctx, count, judge_fn, presets, signature):
 
 
 C06_HISTORY_CORPUS = [
+    {"vals": [(9.0, None), ([8.0, 27.0], None), (2.0, None)],
+     "units": [U(("", "m", 2, 1)), U(("c", "m", 3, 1), ("", "s", -3, 1)), U(("", "m", 1, 1))],
+     "steps": [("sqrt", 0, 0, None, 2), ("mul", 0, 2, None, 2), ("cbrt", 1, 0, None, 2), ("div", 1, 2, None, 2),
+               ("nppow", 2, 0, None, 3), ("pow", 0, 0, None, 2), ("mul", 2, 0, None, 2)]},
     # product / quotient of same-dimension different-symbol units, result rebased, operands reused
     {"vals": [(2.0, None), (3.0, None), ([1.0, -2.0, 3.0], None)],
      "units": [U(("c", "m", 1, 1)), U(("", "m", 1, 1)), U(("k", "m", 1, 1))],
